@@ -125,6 +125,7 @@ func propSuppression(c *Case) {
 	cfg.backendTTL = []time.Duration{10 * time.Second, 5 * time.Minute, time.Hour}[c.Pick("backendTTL", 3)]
 	cfg.observeMut = c.Weighted("ObserveMutability", 2, 1) == 1
 	cfg.stats = cfg.observeMut && c.Bool("stats")
+	cfg.noiseBackendCfg = c.Weighted("BackendConfig-next-to-Backend", 3, 1) == 1
 	// builders usually return a new value per invocation; a data source may also return the same value again
 	stableValue := c.Weighted("stable-value", 2, 1) == 1
 
